@@ -29,12 +29,13 @@ type RevProfile struct {
 	MaxCallers    int
 	RacePanic     bool
 	CachePct      int
-	LatMax        int  // upper bound of latencies in ms (0 = 3000)
-	SoakPct       int  // percent of runs that are sequential multi-validation histories over simulated time (shared cache)
-	SoakLong      bool // thorough: longer histories
-	Perms         int  // forced completion-order permutations: n sampled, -1 = all m!
-	Hostile       bool // C09: structure-aware deletions and odd shapes on top
-	TimeInvariant bool // C17: no time-dependent behaviours so that only the schedule varies
+	LatMax        int   // upper bound of latencies in ms (0 = 3000)
+	KeyW          []int // weights of certificate key kinds (ec256, ec384, rsa2048, ec521, rsa3072); nil = default mix
+	SoakPct       int   // percent of runs that are sequential multi-validation histories over simulated time (shared cache)
+	SoakLong      bool  // thorough: longer histories
+	Perms         int   // forced completion-order permutations: n sampled, -1 = all m!
+	Hostile       bool  // C09: structure-aware deletions and odd shapes on top
+	TimeInvariant bool  // C17: no time-dependent behaviours so that only the schedule varies
 }
 
 func defaultRevProfile(name string) *RevProfile {
@@ -526,7 +527,11 @@ func (p *RevProfile) genWorld(t *Tape, sc *RevScenario, id int) *World {
 	faulty := sc.Config != 0
 	for pos := 0; pos < n; pos++ {
 		cp := &CertPlan{Pos: pos}
-		cp.KeyKind = []string{"ec256", "ec384", "rsa2048", "ec521", "rsa3072"}[t.Weighted(55, 15, 20, 5, 5)]
+		kw := p.KeyW
+		if kw == nil {
+			kw = []int{55, 15, 20, 5, 5}
+		}
+		cp.KeyKind = []string{"ec256", "ec384", "rsa2048", "ec521", "rsa3072"}[t.Weighted(kw...)]
 		cp.LongSerial = t.Bool(12)
 		if cp.LongSerial {
 			b := make([]byte, 112)
